@@ -45,7 +45,7 @@ Init ==
     running |-> 0, maxRunning |-> 0,
     aliases |-> << >>,      \* alias bindings: [a, topic]
     stops |-> 0, stopProto |-> FALSE, stopError |-> FALSE, stopPeer |-> FALSE,
-    discOut |-> 0, discIn |-> FALSE, discPend |-> FALSE, discInViol |-> FALSE, ctlRun |-> {}, zeroSei |-> TRUE,
+    discOut |-> 0, discIn |-> FALSE, discPend |-> FALSE, discInViol |-> FALSE, ctlRun |-> {}, excuse |-> FALSE, zeroSei |-> TRUE,
     expectDisc |-> -1,      \* v5: reason code the DISCONNECT must carry (-1 = no expectation)
     appDisc |-> FALSE,      \* the application supplied / asked for its own DISCONNECT
     connDone |-> FALSE, gateStop |-> FALSE,
@@ -146,7 +146,10 @@ OnInPublish(m, ev) ==
       unacked == Cardinality({k \in 1..Len(m.pubs) : m.pubs[k].q > 0 /\ ~m.pubs[k].refused
                       /\ ~((m.pubs[k].q = 1 /\ m.pubs[k].acked) \/ (m.pubs[k].q = 2 /\ m.pubs[k].comp))})
       m2 == [m1 EXCEPT !.pubs = Append(@, rec), !.narr = n,
-                       !.exceededRM = @ \/ (ev.q > 0 /\ m.maxReceive > 0 /\ unacked + 1 > m.maxReceive)]
+                       !.exceededRM = @ \/ (ev.q > 0 /\ m.maxReceive > 0 /\ unacked + 1 > m.maxReceive),
+                       \* an identifier that may still be in use: MQTT 3.1.1 endpoints may end the connection for it
+                       \* (the monitor does not demand it): no needless protocol error in the sense of `strict`
+                       !.excuse = @ \/ (ev.q > 0 /\ MaybeBusyBefore(m, ev.id, n))]
   IN
   IF ~Healthy(m) THEN [m EXCEPT !.narr = n]
   ELSE IF unresolved THEN NeedProto(m2, "C17:unbound-alias-must-end-connection")
@@ -446,8 +449,8 @@ OnCtl(m, ev) ==
               THEN \* a protocol violation is pending, nothing else has ended the connection, and the endpoint
                    \* stops with peer-gone: it closed the connection quietly instead of reporting the violation
                    Fail(m2, "C16:protocol-violation-ended-the-connection-without-a-protocol-error")
-            ELSE IF ev.k = "stop_proto" /\ m.strict > 0 /\ ~m.needProto /\ Healthy(m) /\ m.expectStop = "none"
-              THEN Fail(m2, "C" \o ToString(m.strict) \o ":connection-ended-with-a-protocol-error-although-the-peer-kept-to-the-rules")
+            ELSE IF ev.k = "stop_proto" /\ m.strict > 0 /\ ~m.needProto /\ ~m.excuse /\ Healthy(m) /\ m.expectStop = "none"
+              THEN Fail(m2, (IF m.strict < 10 THEN "C0" ELSE "C") \o ToString(m.strict) \o ":connection-ended-with-a-protocol-error-although-the-peer-kept-to-the-rules")
             ELSE IF m.expectStop # "none" /\ m.expectStop # ev.k /\ ~m.term
               THEN Fail(m2, "C07:stop-reason-class-differs-from-cause")
             ELSE m2
